@@ -2,8 +2,8 @@
 pools (structural part)."""
 import re
 
-from abtverif import cfg, locks, seq, terms
-from abtverif.seq import idx, is_call, show, has_if, macros_in
+from abtverif import canon, cfg, locks, seq, tables
+from abtverif.seq import idx, is_call, show, macros_in
 from . import common, C02
 
 EXPLANATION = (
@@ -22,6 +22,7 @@ DECLINED = ["non-overlap, conservation and bucket hand-over arithmetic of the me
             "'at least that much usable stack'"]
 ASSUMPTIONS = ["malloc/free/mmap/munmap behave as specified"]
 RULES_DOC = dict(common.SHARED_DOC)
+RULES_DOC["X4"] = common.X4_DOC
 RULES_DOC.update({
     "R1": "provenance pairing: flag family = allocator family; free arm = inverse deallocator, exactly once; freed pointer term = allocated pointer term",
     "R2": "sync LIFO: CAS/store expects the pointer+tag loaded in the same iteration and installs tag+1",
@@ -32,9 +33,243 @@ VARIANTS = ["no_ext_thread", "lazy_stack"]
 MH = "src/include/abti_mem.h"
 
 
-def _norm(t):
-    return re.sub(r"[()\s]", "", t)
+XS_NULL = "ABTI_local_get_xstream_or_null("       # canonical value of the "local execution stream or NULL" pointer
+YT_NULL = "ABTI_thread_get_ythread_or_null("
 
+
+# ---- private, name-independent helpers (also used by rules/C16.py) ---------------------------------------------
+
+def ntype(t):
+    """Type spelling without qualifiers and blanks: 'const ABTI_ktelem *' -> 'ABTI_ktelem*'."""
+    return re.sub(r"\b(const|volatile|struct|restrict)\b|\s", "", t or "")
+
+
+_EXPECT = ("__builtin_expect", "ABTU_likely", "ABTU_unlikely")
+
+
+def cond_root(F, i):
+    """The expression whose truth a condition atom tests: `!x`, `x == 0`, `x != NULL`, likely()/unlikely() and a
+    local that only holds such a test are looked through (the polarity is the business of canon.cond)."""
+    for _ in range(20):
+        i = F.strip(i)
+        nd = F.nodes[i]
+        k = nd.get("k")
+        if k == "un" and nd["op"] == "!":
+            i = nd["e"]
+            continue
+        if k == "call" and nd.get("fn") in _EXPECT and nd.get("a"):
+            i = nd["a"][0]
+            continue
+        if k == "bin" and nd["op"] in ("==", "!="):
+            nxt = None
+            for a, b in ((nd["lh"], nd["rh"]), (nd["rh"], nd["lh"])):
+                if canon._is_zero(F, b) and not canon._is_const(F, a):
+                    nxt = a
+                    break
+            if nxt is None:
+                return i
+            i = nxt
+            continue
+        if k == "ref" and nd.get("dk") == "var":
+            d = canon.reaching_def(F, nd["n"], i)
+            if isinstance(d, int):
+                dn = F.nodes[F.strip(d)]
+                if (dn.get("k") == "bin" and dn["op"] in ("==", "!=", "<", ">", "<=", ">=", "&&", "||")) or \
+                        (dn.get("k") == "un" and dn["op"] == "!"):
+                    i = d
+                    continue
+        return i
+    return i
+
+
+def resolve(F, i, depth=4):
+    """Follow a local variable to the expression of its only reaching definition."""
+    i = F.strip(i)
+    while depth > 0:
+        nd = F.nodes[i]
+        if nd.get("k") != "ref" or nd.get("dk") != "var":
+            break
+        d = canon.reaching_def(F, nd["n"], i)
+        if not isinstance(d, int) or F.nodes[F.strip(d)].get("k") in ("ilist", "zero"):
+            break
+        i = F.strip(d)
+        depth -= 1
+    return i
+
+
+_COMM = ("+", "*", "&", "|", "^", "==", "!=")
+
+
+def mk_bin(op, a, b):
+    if op in _COMM and (b[0] == "int", repr(b)) < (a[0] == "int", repr(a)):      # constants last
+        a, b = b, a
+    return ("bin", op, a, b)
+
+
+def term(F, i, depth=6, at=None):
+    """Structural value term of expression i: nested tuples in which a local variable is replaced by the term of
+    its only reaching definition (so the names of temporaries do not matter), member accesses keep the term of
+    their base object (object identity is kept), casts/loads vanish, constants are folded to their value and the
+    operands of commutative operators are ordered.  Parameters, out-parameter locals (`f(&x)`) and locals with
+    several reaching definitions stay ('var', name)."""
+    at = i if at is None else at
+    i = F.strip(i)
+    if i is None or i < 0:
+        return ("none",)
+    nd = F.nodes[i]
+    k = nd.get("k")
+    T = lambda j: term(F, j, depth, at)
+    if k == "ref":
+        if nd.get("dk") == "enum":
+            return ("enum", nd["n"])
+        if nd.get("dk") == "func":
+            return ("func", nd["n"])
+        if nd.get("dk") == "var" and depth > 0:
+            d = canon.reaching_def(F, nd["n"], at)
+            if isinstance(d, tuple):
+                return mk_bin("+" if d[2] > 0 else "-", term(F, d[1], depth - 1, d[1]), ("int", 1))
+            if d is not None and F.nodes[F.strip(d)].get("k") not in ("ilist", "zero"):
+                return term(F, d, depth - 1, d)
+        return ("var", nd["n"])
+    if "cv" in nd:
+        return ("int", nd["cv"])
+    if k == "mem":
+        return ("fld", T(nd["b"]), "%s::%s" % (nd["r"], nd["f"]))
+    if k == "un":
+        op = nd["op"]
+        if op in ("post++", "post--", "pre++", "pre--"):
+            return ("un", op, T(nd["e"]))
+        inner = T(nd["e"])
+        if op == "*" and inner[0] == "un" and inner[1] == "&":
+            return inner[2]
+        if op == "&" and inner[0] == "un" and inner[1] == "*":
+            return inner[2]
+        return ("un", op, inner)
+    if k == "bin":
+        return mk_bin(nd["op"], T(nd["lh"]), T(nd["rh"]))
+    if k == "call":
+        fn = nd.get("fn")
+        if fn in _EXPECT and nd.get("a"):
+            return T(nd["a"][0])
+        head = ("call", fn) if fn else ("icall", T(nd["fe"]))
+        return head + tuple(T(a) for a in nd["a"])
+    if k == "idx":
+        return ("idx", T(nd["b"]), T(nd["i"]))
+    if k == "cond":
+        return ("cond", T(nd["c"]), T(nd["th"]), T(nd["el"]))
+    if k == "sizeof":
+        return ("sizeof", nd.get("t", ""))
+    return ("text", F.render(i))
+
+
+def tshow(t):
+    if not isinstance(t, tuple):
+        return str(t)
+    h = t[0]
+    if h in ("var", "enum", "func", "int", "text", "sizeof"):
+        return str(t[1])
+    if h == "fld":
+        return "%s->%s" % (tshow(t[1]), t[2].split("::")[-1])
+    if h == "un":
+        return "%s(%s)" % (t[1], tshow(t[2]))
+    if h == "bin":
+        return "(%s %s %s)" % (tshow(t[2]), t[1], tshow(t[3]))
+    if h == "call":
+        return "%s(%s)" % (t[1], ", ".join(tshow(a) for a in t[2:]))
+    if h == "icall":
+        return "(*%s)(%s)" % (tshow(t[1]), ", ".join(tshow(a) for a in t[2:]))
+    if h == "idx":
+        return "%s[%s]" % (tshow(t[1]), tshow(t[2]))
+    if h == "cond":
+        return "(%s ? %s : %s)" % (tshow(t[1]), tshow(t[2]), tshow(t[3]))
+    return str(t)
+
+
+def tsubst(t, old, new):
+    """Term t with every occurrence of sub-term `old` replaced by `new` (commutative operands re-ordered)."""
+    if t == old:
+        return new
+    if not isinstance(t, tuple):
+        return t
+    r = tuple(tsubst(x, old, new) for x in t)
+    if r and r[0] == "bin":
+        return mk_bin(r[1], r[2], r[3])
+    return r
+
+
+def subterms(t):
+    yield t
+    if isinstance(t, tuple):
+        for x in t[1:]:
+            if isinstance(x, tuple):
+                for y in subterms(x):
+                    yield y
+
+
+def addr_var(F, i):
+    """Name of the local whose address expression i takes (`&x`, `(void **)&x`), else None."""
+    nd = F.nodes[F.strip(i)]
+    if nd.get("k") == "un" and nd["op"] == "&":
+        inner = F.nodes[F.strip(nd["e"])]
+        if inner.get("k") == "ref":
+            return inner["n"]
+    return None
+
+
+def deref_param(F, lh, pname):
+    """Is lvalue lh the object parameter `pname` points to (`*p`, `p[0]`)?"""
+    n = F.nodes[F.strip(lh)]
+    if n.get("k") == "un" and n["op"] == "*":
+        b = F.nodes[F.strip(n["e"])]
+        return b.get("k") == "ref" and b["n"] == pname
+    if n.get("k") == "idx":
+        b = F.nodes[F.strip(n["b"])]
+        return b.get("k") == "ref" and b["n"] == pname and F.nodes[F.strip(n["i"])].get("cv") == 0
+    return False
+
+
+def param_of_type(F, typ, nth=0, mutable=False):
+    """Name of the nth parameter of (qualifier-free) type typ; mutable: skip pointers to const."""
+    ps = [p["n"] for p in F.params if ntype(p["t"]) == typ and not (mutable and "const" in p["t"])]
+    return ps[nth] if len(ps) > nth else None
+
+
+class CanonLockTS(locks.LockTS):
+    """locks.LockTS with the held locks named by their canonical expression (`&ABTI_global::mem_pool_desc_lock`)
+    instead of the rendered argument text, so that a lock reached through a temporary pointer or through a
+    differently named variable is the same lock.  (Engine feature emulated locally: locks.lock_key renders text.)"""
+
+    def event(self, F, nid, st, ctx):
+        nd = F.nodes[nid]
+        fn = nd.get("fn") if nd.get("k") == "call" else None
+        for table in (tables.LOCK_ACQUIRE, tables.LOCK_RELEASE, tables.LOCK_RELEASE_TRANSFER, tables.LOCK_COND_ACQUIRE):
+            if fn in table:
+                break
+        else:
+            return locks.LockTS.event(self, F, nid, st, ctx)
+        held, asm = st
+        self.at.setdefault(nid, set()).add(held)
+        key = canon.expr(F, nd["a"][table[fn]])
+        if table is tables.LOCK_ACQUIRE:
+            if key in held:
+                self.errors.append((nid, "lock %s acquired while already held" % key))
+            return (held | {key}, asm)
+        if table is tables.LOCK_COND_ACQUIRE:
+            var = self._result_var(F, nid)
+            asm2 = frozenset(a for a in asm if a[0] != nid)
+            return {(held | {key}, asm2 | {(nid, True, var)}), (held - {key}, asm2 | {(nid, False, var)})}
+        if key not in held:
+            self.errors.append((nid, "lock %s released while not held" % key))
+        return (held - {key}, asm)
+
+
+def run_canon_locks(P, F):
+    ts = CanonLockTS(P)
+    cfg.simulate(F, ts)
+    return ts
+
+
+# ---- R1 ---------------------------------------------------------------------------------------------------------
 
 def _flag_of(F, node):
     ms = [m for m in macros_in(F, node) if m.startswith("ABTI_THREAD_TYPE_MEM_")]
@@ -55,20 +290,43 @@ ALLOC_FAMILY = {
 }
 
 
+def _alloc_cond(label, F, node):
+    """Tests that select the allocator: the local-stream pointer (NULL on an external thread) and boolean parameters."""
+    if XS_NULL in label:
+        return True
+    return label in [p["n"] for p in F.params]
+
+
+def _free_cond(label, F, node):
+    """Canonical labels of ABTI_mem_free_thread's tests: a test of the provenance flag is named by the flag macro
+    (whatever the polarity or a temporary holding the masked value); the stream / ythread NULL tests keep their
+    canonical value."""
+    fl = _flag_of(F, resolve(F, cond_root(F, node)))
+    if fl:
+        return "FLAG:" + ",".join(fl)
+    if label.startswith(XS_NULL) or label.startswith(YT_NULL):
+        return True
+    return False
+
+
+def _pool_of(F, call_nid):
+    """Canonical name of the pool argument of ABTI_mem_pool_alloc/free (a temporary pointer is resolved)."""
+    return canon.expr(F, F.nodes[call_nid]["a"][0])
+
+
 def rule_R1(P, rep):
     # (a) flag stores in allocation functions
     n = 0
     for F in sorted(P.functions.values(), key=lambda f: f.line):
         if F.file != MH or "alloc" not in F.name:
             continue
-        sel = seq.Sel(calls=lambda c: c in ALLOC_FAMILY or c == "ABTI_mem_pool_alloc", fields={"type"},
-                      conds=lambda t: t in ("use_lazy_stack", "p_local_xstream") or "p_local_xstream" in t)
+        sel = seq.Sel(calls=lambda c: c in ALLOC_FAMILY or c == "ABTI_mem_pool_alloc", fields={"type"}, conds=_alloc_cond, canon=True)
         for toks, kind, rv, rtxt in seq.sequences(F, sel, max_len=40):
             sts = [t for t in toks if t[0] == "st" and t[1] == "ABTI_thread::type" and t[2] == "="]
             if kind != "ret" or not sts:
                 continue
             st = sts[-1]
-            node = F.nodes[st[-1]]["rh"]
+            node = resolve(F, F.nodes[st[-1]]["rh"])
             # conditional expression: take the arm chosen on this path through the constant value
             flags = _flag_of(F, node)
             val = st[3]
@@ -87,7 +345,7 @@ def rule_R1(P, rep):
                 a = allocs[0]
                 if a[1] == "ABTI_mem_pool_alloc":
                     afam = "mempool"
-                    arole = "stack" if "mem_pool_stack" in a[2][0] else "desc"
+                    arole = "stack" if "mem_pool_stack" in _pool_of(F, a[-1]) else "desc"
                 else:
                     afam, arole = ALLOC_FAMILY[a[1]]
                 if afam != fam:
@@ -102,22 +360,13 @@ def rule_R1(P, rep):
     rep.need(n >= 5, "only %d provenance-flag stores found" % n)
     # (b) free arms
     F = P.fn("ABTI_mem_free_thread", MH)
-
-    def conds(text, F, node):
-        fl = _flag_of(F, node)
-        if fl:
-            return "FLAG:" + ",".join(fl)
-        if "p_local_xstream" in text or "p_ythread" == text:
-            return text
-        return False
     dealloc = {"ABTI_mem_pool_free", "ABTU_free", "ABTI_mem_free_ythread_desc_mempool_impl", "ABTI_mem_free_nythread_mempool_impl"}
-    sel = seq.Sel(calls=lambda c: c in dealloc, conds=conds)
+    sel = seq.Sel(calls=lambda c: c in dealloc, conds=_free_cond, canon=True)
     arms = set()
     for toks, kind, rv, rtxt in seq.sequences(F, sel, max_len=40):
         if kind != "ret":
             continue
         taken = [t for t in toks if t[0] == "if" and t[1].startswith("FLAG:") and t[2]]
-        tested = [t for t in toks if t[0] == "if" and t[1].startswith("FLAG:")]
         d = [t for t in toks if t[0] == "call"]
         why = []
         if taken:
@@ -140,7 +389,7 @@ def rule_R1(P, rep):
                 if c[1] == "ABTU_free":
                     why.append("memory-pool block released with free()")
                 elif c[1] == "ABTI_mem_pool_free":
-                    pool = c[2][0]
+                    pool = _pool_of(F, c[-1])
                     if role == "stack" and "mem_pool_stack" not in pool:
                         why.append("descriptor+stack block returned to %s" % pool)
                     if role == "desc" and "mem_pool_desc" not in pool:
@@ -152,105 +401,167 @@ def rule_R1(P, rep):
     rep.need(len(arms) >= 5, "ABTI_mem_free_thread has only %d arms: %s" % (len(arms), sorted(arms)))
     for hn, role in (("ABTI_mem_free_ythread_desc_mempool_impl", "desc"), ("ABTI_mem_free_nythread_mempool_impl", "desc")):
         H = P.fn(hn, MH)
-        pools = [H.fieldpath(H.nodes[i]["a"][0]) for b, i in H.calls("ABTI_mem_pool_free")]
+        pools = [_pool_of(H, i) for b, i in H.calls("ABTI_mem_pool_free")]
         rep.ob("R1", "%s returns the block to a descriptor pool" % hn, bool(pools) and all("mem_pool_desc" in p for p in pools), str(pools),
                loc=H.file, site=hn)
-    # (c) pointer-term equality for MALLOC_DESC_STACK
+    # (c) pointer-term equality for MALLOC_DESC_STACK: structural terms over reaching definitions, no names of temporaries
     A = P.fn("ABTI_mem_alloc_ythread_malloc_desc_stack_impl", MH)
-    top = [terms.expand(A, rh) for b, i, lh, rh in A.stores() if A.render(lh) == "*pp_stacktop"]
-    mal = [A.render(A.nodes[i]["a"][1]) for b, i in A.calls("ABTU_malloc")]
-    ok = len(top) == 1 and len(mal) == 1
-    why = "allocation shape not recognised: top=%s malloc out=%s" % (top, mal)
+    size_p, top_p = param_of_type(A, "size_t"), param_of_type(A, "void**")
+    rep.need(size_p and top_p, "%s: size / stack-top parameters not found in %s" % (A.name, A.params))
+    top = [term(A, rh) for b, i, lh, rh in A.stores() if rh is not None and deref_param(A, lh, top_p)]
+    mal = [addr_var(A, A.nodes[i]["a"][1]) for b, i in A.calls("ABTU_malloc")]
+    ok = len(top) == 1 and len(mal) == 1 and mal[0] is not None
+    why = "allocation shape not recognised: top=%s malloc out=%s" % ([tshow(t) for t in top], mal)
     if ok:
-        basevar = re.sub(r"^\(void \*\*\)", "", mal[0]).lstrip("&")
-        m = re.match(r"^\(*%s\s*\+\s*(.*)$" % re.escape(basevar), top[0].lstrip("("))
-        ok = m is not None
-        why = "stack top %s is not base + offset" % top[0]
+        base = ("var", mal[0])
+        tt = top[0]
+        ok = tt[0] == "bin" and tt[1] == "+" and base in tt[2:] and len([x for x in tt[2:] if x == base]) == 1
+        why = "stack top %s is not base + offset" % tshow(tt)
         if ok:
-            off_alloc = _norm(m.group(1))
+            off_alloc = [x for x in tt[2:] if x != base][0]
             frees = []
-            for toks, kind, rv, rtxt in seq.sequences(F, seq.Sel(calls={"ABTU_free"}, conds=conds), max_len=40):
+            for toks, kind, rv, rtxt in seq.sequences(F, seq.Sel(calls={"ABTU_free"}, conds=_free_cond, canon=True), max_len=40):
                 taken = [t for t in toks if t[0] == "if" and t[1].startswith("FLAG:") and t[2]]
                 if taken and "MALLOC_DESC_STACK" in taken[0][1]:
                     for t in toks:
                         if t[0] == "call" and t[1] == "ABTU_free":
-                            frees.append(terms.expand(F, F.nodes[t[-1]]["a"][0]))
+                            frees.append(term(F, F.nodes[t[-1]]["a"][0]))
             ok = len(set(frees)) == 1
-            why = "free arm not found (%s)" % frees
+            why = "free arm not found (%s)" % [tshow(t) for t in frees]
             if ok:
-                ft = _norm(frees[0])
-                ft = ft.replace(_norm("ABTD_ythread_context_get_stacksize(&p_ythread->ctx)"), "stacksize")
-                ft = ft.replace(_norm("ABTD_ythread_context_get_stacktop(&p_ythread->ctx)"), "TOP")
-                want = "TOP-" + off_alloc
-                ok = ft.replace("char*", "") == want
-                why = "allocated base = top - [%s] but the pointer freed is [%s]" % (off_alloc, ft)
+                ft = frees[0]
+                # the pointer freed must be  TOP - off_alloc[requested size := size recorded in the same context]
+                ctxs = [s[2] for s in subterms(ft) if s[0] == "call" and s[1] == "ABTD_ythread_context_get_stacktop" and len(s) == 3]
+                ok = len(set(ctxs)) == 1
+                why = "the pointer freed [%s] is not computed from the stack top recorded in the context" % tshow(ft)
+                if ok:
+                    TOP = ("call", "ABTD_ythread_context_get_stacktop", ctxs[0])
+                    SIZE = ("call", "ABTD_ythread_context_get_stacksize", ctxs[0])
+                    want = mk_bin("-", TOP, tsubst(off_alloc, ("var", size_p), SIZE))
+                    ok = ft == want
+                    why = "allocated base = top - [%s] but the pointer freed is [%s]" % (
+                        tshow(off_alloc), tshow(tsubst(tsubst(ft, SIZE, ("var", size_p)), TOP, ("var", "TOP"))))
     rep.ob("R1", "MALLOC_DESC_STACK: the pointer passed to free() equals the pointer malloc() returned (term equality)", ok, why,
            loc=MH, site="malloc_desc_stack/pointer-term")
     # the size recorded in the context is the size the allocation was computed from
     for an in ("ABTI_mem_alloc_ythread_malloc_desc_stack", "ABTI_mem_alloc_ythread_mempool_desc_stack"):
         G = P.fn(an, MH)
+        gsize = param_of_type(G, "size_t")
+        # locals that receive the stack top from a descriptor+stack allocator (its last, `void **` argument)
+        tops = set(addr_var(G, G.nodes[i]["a"][-1]) for b, i in G.calls(set(k for k, v in ALLOC_FAMILY.items() if v[1] == "stack")))
         bad = []
         for b, i in G.calls("ABTD_ythread_context_init"):
-            args = [G.render(a) for a in G.nodes[i]["a"]]
-            if args[1:] != ["p_stacktop", "stacksize"]:
-                bad.append(args)
+            a = G.nodes[i]["a"]
+            got = (term(G, a[1]), term(G, a[2]))
+            if not (got[0][0] == "var" and got[0][1] in tops and got[0][1] is not None and got[1] == ("var", gsize)):
+                bad.append([tshow(x) for x in got])
         rep.ob("R1", "%s records the stack top and the requested size in the context" % an, not bad and bool(G.calls("ABTD_ythread_context_init")),
                str(bad), loc=G.file, site="%s/context-init" % an)
     # (d) large pages
     L = P.fn("ABTU_free_largepage", "src/util/largepage.c")
-    sel = seq.Sel(calls={"ABTU_free", "mmap_free"}, conds=lambda t: t.startswith("type =="))
+    tparam = param_of_type(L, "ABTU_MEM_LARGEPAGE_TYPE")
+    rep.need(tparam, "ABTU_free_largepage: no ABTU_MEM_LARGEPAGE_TYPE parameter in %s" % L.params)
+    lp_re = re.compile(r"^%s == (ABTU_MEM_LARGEPAGE_\w+)$" % re.escape(tparam))
+    sel = seq.Sel(calls={"ABTU_free", "mmap_free"}, conds=lambda t: bool(lp_re.match(t)), canon=True)
     pairs = {}
     for toks, kind, rv, rtxt in seq.sequences(L, sel):
         t_true = [t for t in toks if t[0] == "if" and t[2]]
         d = [t[1] for t in toks if t[0] == "call"]
         if t_true:
-            pairs[t_true[-1][1].split("== ")[1]] = d
+            pairs[lp_re.match(t_true[-1][1]).group(1)] = d
+    if not pairs:
+        pairs = _switch_dispatch(L, tparam, {"ABTU_free", "mmap_free"})
     want = {"ABTU_MEM_LARGEPAGE_MALLOC": ["ABTU_free"], "ABTU_MEM_LARGEPAGE_MEMALIGN": ["ABTU_free"],
             "ABTU_MEM_LARGEPAGE_MMAP": ["mmap_free"], "ABTU_MEM_LARGEPAGE_MMAP_HUGEPAGE": ["mmap_free"]}
     for k, v in sorted(want.items()):
         rep.ob("R1", "large page of type %s is released with %s" % (k, v[0]), pairs.get(k) == v, "got %s" % pairs.get(k), loc=L.file,
                site="largepage/free/%s" % k)
     LA = P.fn("ABTU_alloc_largepage", "src/util/largepage.c")
-    sel = seq.Sel(calls={"ABTU_malloc", "ABTU_memalign", "mmap_regular", "mmap_hugepage"}, conds=lambda t: t.startswith("requested =="),
-                  rets=True)
-    sel.fields = set()
+    aparam = param_of_type(LA, "ABTU_MEM_LARGEPAGE_TYPE*", mutable=True)
+    rep.need(aparam, "ABTU_alloc_largepage: no `ABTU_MEM_LARGEPAGE_TYPE *` out-parameter in %s" % LA.params)
+    allocators = {"ABTU_malloc", "ABTU_memalign", "mmap_regular", "mmap_hugepage"}
+    names = dict((v, k) for k, v in P.enum_consts.items() if k.startswith("ABTU_MEM_LARGEPAGE_"))
     got = {}
-    for b, i, lh, rh in LA.stores():
-        if LA.render(lh) == "*p_actual":
-            # allocator calls that dominate this store in the same arm
-            al = [LA.nodes[j]["fn"] for b2, j in LA.calls({"ABTU_malloc", "ABTU_memalign", "mmap_regular", "mmap_hugepage"})
-                  if cfg.dominates(LA, j, i) and not any(cfg.dominates(LA, j, k2) and cfg.dominates(LA, k2, i) and k2 != j
-                                                         for b3, k2 in LA.calls({"ABTU_malloc", "ABTU_memalign", "mmap_regular", "mmap_hugepage"}))]
-            got[LA.render(rh)] = al
+    # on every path the type recorded through the out-parameter is paired with the allocator called last before it
+    # (the value is the constant stored, or the constant the stored variable was just compared equal to)
+    for toks, kind, rv, rtxt in seq.sequences(LA, seq.Sel(calls=allocators, derefs={aparam}, canon=True), max_repeat=1, max_len=40):
+        for j, t in enumerate(toks):
+            if t[0] == "dst" and t[1] == aparam:
+                al = [u[1] for u in toks[:j] if u[0] == "call"]
+                got.setdefault(names.get(t[2], t[2]), set()).add(al[-1] if al else None)
     wantA = {"ABTU_MEM_LARGEPAGE_MALLOC": "ABTU_malloc", "ABTU_MEM_LARGEPAGE_MEMALIGN": "ABTU_memalign",
              "ABTU_MEM_LARGEPAGE_MMAP": "mmap_regular", "ABTU_MEM_LARGEPAGE_MMAP_HUGEPAGE": "mmap_hugepage"}
     for k, v in sorted(wantA.items()):
-        rep.ob("R1", "large page recorded as %s was obtained from %s" % (k, v), v in got.get(k, []), "got %s" % got.get(k), loc=LA.file,
-               site="largepage/alloc/%s" % k)
+        rep.ob("R1", "large page recorded as %s was obtained from %s" % (k, v), got.get(k) == {v}, "got %s" % sorted(map(str, got.get(k, []))),
+               loc=LA.file, site="largepage/alloc/%s" % k)
     # (e) descriptors: the tag word decides the deallocator
     if P.fns("ABTI_mem_alloc_desc"):
         D = P.fn("ABTI_mem_alloc_desc", MH)
-        sel = seq.Sel(calls={"ABTU_malloc", "ABTI_mem_pool_alloc"})
         tags = {}
         for b, i, lh, rh in D.stores():
-            if "ABTI_MEM_POOL_DESC_SIZE" in macros_in(D, lh) or "p_desc" in D.render(lh) and "+" in D.render(lh):
+            if rh is not None and _is_tag_word(D, lh):
                 al = [D.nodes[j]["fn"] for b2, j in D.calls({"ABTU_malloc", "ABTI_mem_pool_alloc"}) if cfg.dominates(D, j, i)]
                 tags[D.nodes[D.strip(rh)].get("cv")] = al
         noext = P.variant == "no_ext_thread"
         ok = tags.get(0) == ["ABTI_mem_pool_alloc"] and (noext or tags.get(1) == ["ABTU_malloc"])
         rep.ob("R1", "descriptor tag word: 1 = malloc'ed, 0 = memory pool", ok, str(tags), loc=D.file, site="desc/tag")
         FD = P.fn("ABTI_mem_free_desc", MH)
-        sel = seq.Sel(calls={"ABTU_free", "ABTI_mem_pool_free"}, conds=lambda t: "ABTI_MEM_POOL_DESC_SIZE" in t or "+ " in t or t == "p_local_xstream")
+
+        def fd_cond(label, F, node):
+            if _is_tag_word(F, resolve(F, cond_root(F, node))):
+                return "TAG"             # true = tag word non-zero = malloc'ed
+            return label.startswith(XS_NULL)
+        sel = seq.Sel(calls={"ABTU_free", "ABTI_mem_pool_free"}, conds=fd_cond, canon=True)
         for toks, kind, rv, rtxt in seq.sequences(FD, sel):
             if kind != "ret":
                 continue
-            tag = [t for t in toks if t[0] == "if" and "p_desc" in t[1]]
+            tag = [t for t in toks if t[0] == "if" and t[1] == "TAG"]
             d = [t[1] for t in toks if t[0] == "call"]
             ok = len(d) == 1 and ((tag and ((tag[0][2] and d == ["ABTU_free"]) or (not tag[0][2] and d == ["ABTI_mem_pool_free"]))) or
                                   (noext and not tag and d == ["ABTI_mem_pool_free"]))
             rep.ob("R1", "free_desc tag=%s -> %s" % (tag[0][2] if tag else "?", d), bool(ok), show(toks), loc=FD.file,
                    site="desc/free/%s" % (tag[0][2] if tag else "?"))
     rep.min_instances("R1", 25)
+
+
+def _is_tag_word(F, node):
+    """The descriptor's trailing tag word: `*(uint32_t *)((char *)desc + ABTI_MEM_POOL_DESC_SIZE)`, also when the
+    address was first put into a local pointer."""
+    if "ABTI_MEM_POOL_DESC_SIZE" in macros_in(F, node):
+        return True
+    n = F.nodes[F.strip(node)]
+    if n.get("k") == "un" and n["op"] == "*":
+        a = resolve(F, n["e"])
+        e = F.nodes[a]
+        return "ABTI_MEM_POOL_DESC_SIZE" in macros_in(F, a) or (e.get("k") == "bin" and e["op"] == "+")
+    return False
+
+
+def _switch_dispatch(F, var, want_calls):
+    """{enumerator: [wanted callees reached]} for a `switch (var)`; fall-through into the next label is followed,
+    `break`/`return` end a case."""
+    out = {}
+    heads = [b for b in F.blocks.values() if b.tk == "SwitchStmt" and b.tc is not None and canon.expr(F, b.tc) == var]
+    for h in heads:
+        for s in h.succs:
+            if s is None or not F.blocks[s].casename:
+                continue
+            calls, seen, st = [], set(), [s]
+            while st:
+                x = st.pop()
+                if x in seen:
+                    continue
+                seen.add(x)
+                B = F.blocks[x]
+                for i in B.elems:
+                    nd = F.nodes[i]
+                    if nd.get("k") == "call" and nd.get("fn") in want_calls:
+                        calls.append(nd["fn"])
+                if B.tk == "BreakStmt" or any(F.nodes[i].get("k") == "ret" for i in B.elems):
+                    continue
+                st.extend(y for y in B.succs if y is not None)
+            out[F.blocks[s].casename] = calls
+    return out
 
 
 _FLAGVALS = {}
@@ -272,6 +583,8 @@ def P_flag_value(P, F, macro):
     return _FLAGVALS.get(macro)
 
 
+# ---- R2 ---------------------------------------------------------------------------------------------------------
+
 def rule_R2(P, rep):
     LH = "src/include/abti_sync_lifo.h"
     for fn, kind in (("ABTI_sync_lifo_push", "cas"), ("ABTI_sync_lifo_pop", "cas"), ("ABTI_sync_lifo_push_unsafe", "store"),
@@ -286,18 +599,22 @@ def rule_R2(P, rep):
         for b, i in upd:
             nd = F.nodes[i]
             args = [F.render(a) for a in nd["a"]]
+            targs = [term(F, a) for a in nd["a"]]
             why = []
             ld = [j for b2, j in loads if cfg.dominates(F, j, i)]
             if not ld:
                 why.append("update not dominated by a load of the top word")
             else:
-                largs = [F.render(a) for a in F.nodes[ld[-1]]["a"]]
-                pv = largs[1].replace("(void **)", "").lstrip("&")
-                tv = largs[2].lstrip("&")
-                if nd["fn"].endswith("cas_weak_tagged_ptr"):
-                    if args[1] != pv or args[2] != tv:
+                la = F.nodes[ld[-1]]["a"]
+                # the locals the load wrote the pointer and the tag into (out-parameters: never resolved further)
+                pv, tv = addr_var(F, la[1]), addr_var(F, la[2])
+                next_tag = mk_bin("+", ("var", tv), ("int", 1))
+                if pv is None or tv is None:
+                    why.append("the load of the top word does not write into two locals")
+                elif nd["fn"].endswith("cas_weak_tagged_ptr"):
+                    if targs[1] != ("var", pv) or targs[2] != ("var", tv):
                         why.append("CAS expects (%s,%s) but the iteration loaded (%s,%s)" % (args[1], args[2], pv, tv))
-                    if args[4] != "%s + 1" % tv:
+                    if targs[4] != next_tag:
                         why.append("new tag is %s, not %s + 1 (ABA protection)" % (args[4], tv))
                     if "acquire" not in F.nodes[ld[-1]]["fn"]:
                         why.append("top word not acquire-loaded before the CAS")
@@ -305,33 +622,36 @@ def rule_R2(P, rep):
                     if not cfg.can_reach(F, i, ld[-1]):
                         why.append("top word loaded outside the retry loop (a failed CAS would retry with stale values)")
                 else:
-                    if args[2] != "%s + 1" % tv:
+                    if targs[2] != next_tag:
                         why.append("new tag is %s, not %s + 1" % (args[2], tv))
-            rep.ob("R2", "%s: %s(%s)" % (fn, nd["fn"].replace("ABTD_atomic_", ""), ", ".join(args[1:])), not why, "; ".join(why),
-                   loc=F.loc(i), site="%s/%s" % (fn, nd["fn"]))
+            rep.ob("R2", "%s: %s(%s)" % (fn, nd["fn"].replace("ABTD_atomic_", ""), ", ".join(tshow(t) for t in targs[1:])), not why,
+                   "; ".join(why), loc=F.loc(i), site="%s/%s" % (fn, nd["fn"]))
         # push links the element before publishing it; pop reads the successor before the CAS
         if "push" in fn:
-            st = [i for b, i, lh, rh in F.stores() if F.render(lh) == "p_elem->p_next"]
+            elem = param_of_type(F, "ABTI_sync_lifo_element*")
+            st = [i for b, i, lh, rh in F.stores() if canon.rooted(F, lh) == "%s->p_next" % elem]
             ok = bool(st) and all(any(cfg.dominates(F, s, i) for s in st) for b, i in upd)
             rep.ob("R2", "%s links p_elem->p_next before publishing p_elem" % fn, ok, "", loc=F.file, site="%s/link-first" % fn)
 
+
+# ---- R3 ---------------------------------------------------------------------------------------------------------
 
 def rule_R3(P, rep):
     n = 0
     for F in sorted(P.functions.values(), key=lambda f: (f.file, f.line)):
         sites = []
         for b, i in F.calls({"ABTI_mem_pool_alloc", "ABTI_mem_pool_free"}):
-            p = F.fieldpath(F.nodes[i]["a"][0])
+            p = _pool_of(F, i)
             if p.endswith("_ext"):
                 sites.append((i, p))
         if not sites:
             continue
-        ts = locks.run_locks(P, F)
+        ts = run_canon_locks(P, F)
         for i, p in sites:
             n += 1
             want = "mem_pool_stack_lock" if "stack" in p else "mem_pool_desc_lock"
             helds = ts.at.get(i, set())
-            ok = bool(helds) and all(any(want in k for k in h) for h in helds)
+            ok = bool(helds) and all(any(k.endswith("::" + want) for k in h) for h in helds)
             rep.ob("R3", "%s accesses %s under %s" % (F.name, p, want), ok, "lock sets %s" % sorted(sorted(h) for h in helds),
                    loc=F.loc(i), site="%s/%s" % (F.name, p))
         unb = [(k, nid, h) for k, nid, h, rv in ts.exits if k == "ret" and h]
@@ -344,7 +664,7 @@ def rule_R3(P, rep):
         acc = [i for i, nd in enumerate(F.nodes) if nd and nd.get("k") == "mem" and nd["f"] == "partial_bucket" and nd.get("r") == "ABTI_mem_pool_global_pool"]
         if not acc or F.name in ("ABTI_mem_pool_init_global_pool", "ABTI_mem_pool_destroy_global_pool"):
             continue
-        ts = locks.run_locks(P, F)
+        ts = run_canon_locks(P, F)
         pm = F.parent_map()
         bad = []
         for i in acc:
@@ -353,16 +673,28 @@ def rule_R3(P, rep):
                 j = pm.get(j)
             if j is None:
                 continue
-            if not all(any("partial_bucket_lock" in k for k in h) for h in ts.at[j]):
+            if not all(any(k.endswith("::partial_bucket_lock") for k in h) for h in ts.at[j]):
                 bad.append(F.loc(i))
         rep.ob("R3", "%s touches partial_bucket only under partial_bucket_lock" % F.name, not bad, str(sorted(set(bad))), loc=F.file,
                site="%s/partial_bucket" % F.name)
 
 
+# ---- R4 ---------------------------------------------------------------------------------------------------------
+
 def rule_R4(P, rep):
     F = P.fn("ABT_thread_attr_set_stack", "src/thread_attr.c")
-    INV = P.macro_int("ABT_ERR_INV_ARG")
-    sel = seq.Sel(calls={"thread_attr_set_stack"}, conds=lambda t: "stackaddr" in t, rets=True)
+    addr = param_of_type(F, "void*")
+    rep.need(addr, "ABT_thread_attr_set_stack: no `void *` stack-address parameter in %s" % F.params)
+
+    def conds(label):
+        if label == addr:
+            return "nonnull"              # true = the address is not NULL
+        if label in ("%s & 7" % addr, "7 & %s" % addr):
+            return "misaligned"           # true = one of the low three bits is set
+        if label in ("%s %% 8" % addr,):
+            return "misaligned"
+        return None
+    sel = seq.Sel(calls={"thread_attr_set_stack"}, conds=conds, rets=True, canon=True)
     n = 0
     for toks, kind, rv, rtxt in seq.sequences(F, sel):
         call = idx(toks, is_call("thread_attr_set_stack"))
@@ -370,8 +702,8 @@ def rule_R4(P, rep):
             continue
         n += 1
         pre = [t for t in toks[:call[0]] if t[0] == "if"]
-        isnull = any("== (void *)0" in t[1] and t[2] for t in pre)
-        aligned = any("& 7" in t[1] and "== 0" in t[1] and t[2] for t in pre)
+        isnull = any(t[1] == "nonnull" and not t[2] for t in pre)
+        aligned = any(t[1] == "misaligned" and not t[2] for t in pre)
         rep.ob("R4", "ABT_thread_attr_set_stack accepts only NULL or 8-byte aligned addresses", isnull or aligned, show(toks), loc=F.file,
                site="attr_set_stack/%s" % ("null" if isnull else "aligned"))
     rep.need(n >= 2, "attr_set_stack: %d accepting paths" % n)
@@ -383,6 +715,8 @@ def rule_R4(P, rep):
 
 
 def run(P, rep, tier):
+    if tier == "thorough":
+        common.rule_X4(P, rep)
     common.run_shared(P, rep, which=("X1", "X2"))
     rule_R1(P, rep)
     rule_R2(P, rep)
